@@ -9,6 +9,7 @@ CONSTANTS
  Emit = FALSE
  Skew = FALSE
  FsckFlags = {"none","objects","pointers","dry-run"}
+ Excludes = {{}, {"p1"}}
  Damages = {"absent","corrupt","truncated","extended","replaced"}
 SPECIFICATION FSpec
 VIEW FView
